@@ -531,6 +531,21 @@ def casadi_to_sympy_dir(ctx, n_trees, depth):
             ctx.violation("casadi_to_sympy_value", "guarded_singularity", {"expr": str(e)[:200], "kind": gname, **det})
         elif st != "ok":
             ctx.count("c2s_guarded_%s:%s" % (st, gname))
+    # remainder / fmod at exact half-integer and integer quotients of either sign (binary fractions: decidable in both arithmetics)
+    for oname, e in (("remainder", ca.remainder(V[0], V[1]) + V[2]), ("fmod", ca.fmod(V[0], V[1]) + V[2])):
+        for xv, yv in ((-1.5, 1.0), (-3.5, 1.0), (1.5, 1.0), (2.5, 1.0), (-0.5, 1.0), (-2.5, 1.0), (3.0, 2.0), (-3.0, 2.0), (-7.0, 2.0), (4.0, 2.0), (-4.5, 0.25)):
+            pt = np.array([xv, yv, 0.125])
+            ref = float(ca.Function("T", V, [e])(*pt))
+            try:
+                with warnings.catch_warnings():
+                    warnings.simplefilter("ignore")
+                    val = sym_value(cts(e), {sp.Symbol(n): float(v) for n, v in zip(names, pt)})
+            except Exception:
+                ctx.count("c2s_tie_rejected")
+                continue
+            ctx.tally("casadi_to_sympy:tie")
+            if not close(val, ref):
+                ctx.violation("casadi_to_sympy_value", "OP_" + oname.upper(), {"expr": str(e), "kind": "exact tie", "point": pt.tolist(), "casadi_value": ref, "sympy_value": val})
     # floating-point constants must come back unchanged, however close to an integer or to zero they are
     for cval in (1e-7, 2.5e-7, -3e-8, 3.0000004, -1.9999997, 1.0000002, 0.9999996, 1e-12, 2.5, -0.3, 1e-3, 123456.789, 1e20):
         e = ca.SX(cval) * V[0] + ca.if_else(ca.fabs(V[1]) < cval, 1, 2)
